@@ -22,7 +22,9 @@
 (*      translation, collinear runs included.  The other families are       *)
 (*      enumerated in Init: holes (H1, H2), nesting to depth 4 (N), several *)
 (*      outer contours (M), combs and staircases (C), star-shaped octagons  *)
-(*      alone and as holes / islands (Z, ZH), arbitrary contours (X).       *)
+(*      alone and as holes / islands (Z, ZH), one vertex repeated (D: not   *)
+(*      valid but epsilon-valid, see EpsValidWithDups), arbitrary finite    *)
+(*      contours (X: only termination and index validity are demanded).     *)
 (*  (b) OUTPUT side.  ValidTriangulation(polys, tris) is the statement of   *)
 (*      C10 clause by clause.  TLC checks on every enumerated polygon set   *)
 (*      that the generator and the independent full predicate agree         *)
@@ -240,20 +242,25 @@ Indexed(polys) == [k \in 1..Len(polys) |->
 LShape(n) == << <<0, 0>>, <<n, 0>>, <<n, 2>>, <<2, 2>>, <<2, n>>, <<0, n>> >>
 UShape(n) == << <<0, 0>>, <<n, 0>>, <<n, n>>, <<n - 1, n>>, <<n - 1, 1>>, <<1, 1>>, <<1, n>>, <<0, n>> >>
 Outers(n) == { Rect(0, 0, n, n), RectFull(0, 0, n, n), LShape(n), Diamond(n, n, n),
-               << <<0, 0>>, <<n, 1>>, <<n - 1, n>>, <<1, n - 1>> >> }
+               << <<0, 0>>, <<n, 1>>, <<n - 1, n>>, <<1, n - 1>> >> }   \* the last one: SkewQuad(n)
 
 (* H1: an outer contour with one hole: every clockwise triangle and simple   *)
 (* quadrilateral on the lattice that fits strictly inside                    *)
 FamH1(n) ==
   LET P == PtsIn(1, 1, n - 1, n - 1)
-      Holes == { Rev(t) : t \in TrisCCW(P) } \cup { Rev(q) : q \in QuadsCand(PtsIn(1, 1, Min(n - 1, 3), Min(n - 1, 4))) }
-  IN { <<o, h>> : o \in Outers(n) \cup { UShape(n) }, h \in Holes }
-     \cup { <<h, o>> : o \in { Rect(0, 0, n, n) }, h \in Holes }   \* hole listed first
+      T == { Rev(t) : t \in TrisCCW(P) }
+      Q == { Rev(q) : q \in QuadsCand(PtsIn(1, 1, Min(n - 1, 3), Min(n - 1, 4))) }
+  IN { <<o, h>> : o \in Outers(n) \cup { UShape(n) }, h \in T }
+     \cup { <<o, h>> : o \in { Rect(0, 0, n, n), LShape(n) }, h \in Q }
+     \cup { <<h, o>> : o \in { Rect(0, 0, n, n) }, h \in T }   \* hole listed first
 
-(* H2: a square / L with two disjoint triangular holes (unordered pairs)     *)
+(* H2: a square / L / skew quadrilateral with two disjoint small triangular    *)
+(* holes (unordered pairs): the second hole is bridged to an outer loop that   *)
+(* already contains the first one                                              *)
+SkewQuad(n) == << <<0, 0>>, <<n, 1>>, <<n - 1, n>>, <<1, n - 1>> >>
 FamH2(n) ==
-  LET T == { Rev(t) : t \in TrisCCW(PtsIn(1, 1, n - 1, n - 1)) }
-  IN { s \in { <<o, h1, h2>> : o \in { Rect(0, 0, n, n), LShape(n) }, h1 \in T, h2 \in T } :
+  LET T == { Rev(t) : t \in { u \in TrisCCW(PtsIn(1, 1, n - 1, n - 1)) : Orient(u[1], u[2], u[3]) <= MaxV } }   \* MaxV bounds the doubled hole area
+  IN { s \in { <<o, h1, h2>> : o \in { Rect(0, 0, n, n), LShape(n), SkewQuad(n) }, h1 \in T, h2 \in T } :
          Less(s[2][1], s[3][1]) }
 
 (* N: nesting to depth 4: concentric rings (square, full square, diamond,    *)
@@ -315,17 +322,18 @@ Star(cx, cy, k, m) == [i \in 1..8 |-> <<cx + m * k[i] * Dirs8[i][1], cy + m * k[
 FamZ(n) == { <<Star(n, n, k, 1)>> : k \in [1..8 -> 1..n] }
 FamZH(n) ==
   UNION { { <<Rect(0, 0, 14, 14), Rev(Star(7, 7, k, 1))>>,
-            <<Rev(Star(8, 8, k, 1)), Diamond(8, 8, 8)>>,
             <<Star(7, 7, k, 3), Rev(Star(7, 7, k, 1))>>,
-            <<Rect(0, 0, 14, 14), Rev(Star(7, 7, k, 2)), Star(7, 7, k, 1)>>,
-            <<Rect(0, 0, 14, 14), Rev(Star(4, 4, k, 1)), Rev(Star(10, 9, k, 1))>> } : k \in [1..8 -> 1..n] }
+            <<Rect(0, 0, 14, 14), Rev(Star(7, 7, k, 2)), Star(7, 7, k, 1)>> } : k \in [1..8 -> 1..n] }
+  \cup UNION { { <<Rev(Star(8, 8, k, 1)), Diamond(8, 8, 8)>>,
+                 <<Rect(0, 0, 14, 14), Rev(Star(4, 4, k, 1)), Rev(Star(10, 5, [i \in 1..8 |-> k[9 - i]], 1))>> } :
+               k \in { kk \in [1..8 -> 1..n] : kk[1] = 1 /\ kk[5] = n } }
 
 (* D: one vertex repeated, at every position of every contour of the valid     *)
 (* sets of a base family (combs/staircases, square and L with a triangular     *)
 (* hole, star octagons): V grows by one, so does the number of triangles       *)
 BaseD(n) ==
-  { s \in FamC(2) \cup { <<o, Rev(t)>> : o \in { Rect(0, 0, n, n), LShape(n) }, t \in TrisCCW(PtsIn(1, 1, n - 1, n - 1)) } : EpsValidSet(s) }
-  \cup { <<Star(2, 2, k, 1)>> : k \in [1..8 -> 1..2] }
+  { s \in FamC(2) \cup { <<o, Rev(t)>> : o \in { Rect(0, 0, n, n) }, t \in TrisCCW(PtsIn(1, 1, n - 1, n - 1)) } : EpsValidSet(s) }
+  \cup { <<Star(2, 2, k, 1)>> : k \in { kk \in [1..8 -> 1..2] : kk[1] = 1 /\ kk[2] = 2 } }
 FamD(n) ==
   UNION { { [s EXCEPT ![kk[1]] = DupAt(s[kk[1]], kk[2])] :
               kk \in { q \in (1..Len(s)) \X (1..16) : q[2] <= Len(s[q[1]]) } } : s \in BaseD(n) }
